@@ -317,7 +317,8 @@ def classify(case, detail, impl_lines):
 
 
 def keep_line(l):
-    return l.startswith('nf_new')
+    # the snapshot lines are kept: an op without its snapshot would run against the fixture's defaults
+    return l.startswith('nf_new') or l.startswith('nf_ctx')
 
 
 def extra_stats(cases, impl):
